@@ -45,10 +45,14 @@ def run(run):
     probe = lib.run_impl("c20", [{"backup": False, "bootstrap": False, "kind": "probe",
                                   "workers": [{"pages": [1], "count_lines": True}]}], shards=1)[0]
     nlines = (probe.get("results") or [{}])[0].get("lines", 0)
+    line_fns = (probe.get("results") or [{}])[0].get("line_fns") or []
     run.extra["startup_line_events"] = nlines
     for backup in (False, True):
         for bootstrap in (False, True):
-            for k in range(1, nlines + 1, (3 if quick else 1)):
+            for k in range(1, nlines + 1):
+                # quick: every third line, but every line of the function that writes the bootstrap page
+                if quick and k % 3 != 1 and not (k <= len(line_fns) and line_fns[k - 1] == "add_empty_sandbox_lua_module"):
+                    continue
                 cases.append({"backup": backup, "bootstrap": bootstrap, "kind": "gated",
                               "workers": [{"pages": [1, 0], "gate": {"line": k}}, {"pages": [1, 4]}]})
     res = lib.run_impl("c20", [dict(c, _timeout=200) for c in cases], shards=max(2, lib.NCPU // 4))
